@@ -50,6 +50,9 @@ type CopyParams struct {
 	RegProfile  *RegProfile    `json:"reg_profile,omitempty"` // remote stores: capability profile of the simulated registries
 	MountFrom   bool           `json:"mount_from,omitempty"`  // remote destination: offer the sibling repository as mount source
 	MountList   int            `json:"mount_list,omitempty"`  // which candidate list MountFrom returns (see mountLists)
+	// C01: the context ends before the call (Op "call") or at the named operation; a call that
+	// still reports success is judged like any other
+	CancelAt *FaultSpec `json:"cancel_at,omitempty"`
 	Raced       []int          `json:"raced,omitempty"`       // C04: nodes another client stores in the destination right before this copy's own Push
 	MountPre    []int          `json:"mount_pre,omitempty"`   // blobs the sibling repository of the destination registry holds
 	NetFaults   []NetFaultAt   `json:"net_faults,omitempty"`  // remote stores: failing HTTP exchanges (C02)
@@ -77,7 +80,7 @@ func (p *copyProp) ID() string { return p.id }
 func (p *copyProp) Rule() string {
 	switch p.id {
 	case "C01":
-		return "scenario = random Merkle DAG (<=25 nodes) + root + link-closed pre-populated destination + store pairing + Concurrency + API, executed under one seeded schedule; non-trivial = at least 3 tasks ran and at least 3 scheduling steps had two or more candidates; distinct = distinct event-trace hashes (task ids, yield sites, seam events with node ids)"
+		return "scenario = random Merkle DAG (<=25 nodes) + root + link-closed pre-populated destination + store pairing + Concurrency + API, executed under one seeded schedule (12%: the context ends before the call or at a drawn operation - a call that still reports success is judged like any other, one that fails is not judged here); non-trivial = at least 3 tasks ran and at least 3 scheduling steps had two or more candidates; distinct = distinct event-trace hashes (task ids, yield sites, seam events with node ids)"
 	case "C02":
 		return "scenario as C01 plus 1-3 faults (error before/after the effect, a source body that breaks off half way with a non-EOF error, or cancellation) placed on operations the fault-free execution performed; each scenario is executed fault-free, with faults, and re-run without faults; non-trivial = a fault fired, or >=3 tasks and >=3 real scheduling choices; distinct = distinct (event-trace hash, fault plan)"
 	case "C03":
@@ -218,6 +221,21 @@ func (p *copyProp) Gen(r *Rand, tier string, idx int) any {
 	switch p.id {
 	case "C01":
 		cp.API = pick(r, []string{"Copy", "Copy", "CopyGraph"})
+		if r.Chance(0.12) {
+			c := &FaultSpec{Store: "src", Op: "call", Node: -1, Occur: 1, Kind: "cancel"}
+			switch r.Intn(5) {
+			case 0:
+			case 1:
+				c.Op = "Resolve"
+			case 2:
+				c.Op, c.Node = "Fetch", r.Intn(len(g.Nodes))
+			case 3:
+				c.Store, c.Op, c.Node = "dst", "Exists", r.Intn(len(g.Nodes))
+			default:
+				c.Store, c.Op, c.Node = "dst", "Push", r.Intn(len(g.Nodes))
+			}
+			cp.CancelAt = c
+		}
 		if r.Chance(0.15) && cp.DstKind != "file" {
 			// another client stores the root (or some other node) right before this copy's own Push
 			cp.Raced = []int{cp.Root}
@@ -708,6 +726,12 @@ func (env *copyEnv) exec2(rc *RunCtx, faults []FaultSpec, checks func(m *Monitor
 		ctx, cancel := context.WithCancel(context.Background())
 		defer cancel()
 		mon.cancel = cancel
+		if cp.CancelAt != nil && cp.CancelAt.Op == "call" && !scratch {
+			cancel()
+			mon.mu.Lock()
+			mon.firedK["cancel"]++
+			mon.mu.Unlock()
+		}
 		var gopts oras.CopyGraphOptions
 		gopts.Concurrency = cp.Concurrency
 		gopts.MaxMetadataBytes = cp.MaxMeta
@@ -1233,6 +1257,9 @@ func (p *copyProp) judgeCopyOnce(rc *RunCtx, env *copyEnv, info *RunInfo, closur
 			racedFaults = append(racedFaults, FaultSpec{Store: "dst", Op: "Push", Node: n, Occur: 1, Kind: "raced"})
 		}
 	}
+	if cp.CancelAt != nil && cp.CancelAt.Op != "call" {
+		racedFaults = append(racedFaults, *cp.CancelAt)
+	}
 	ex := env.exec(rc, racedFaults, closure, false)
 	if ex.mon.firedK["raced"] > 0 {
 		info.Probes["push_raced_by_another_client"] += ex.mon.firedK["raced"]
@@ -1244,6 +1271,15 @@ func (p *copyProp) judgeCopyOnce(rc *RunCtx, env *copyEnv, info *RunInfo, closur
 	}
 	if ex.mon.viol != nil {
 		return ex.mon.viol
+	}
+	if ex.mon.firedK["cancel"] > 0 {
+		if ex.err != nil {
+			// what a cancelled call that fails leaves behind is the subject of C02
+			info.Probes["cancelled_call_failed"]++
+			info.Outcome = "cancelled"
+			return nil
+		}
+		info.Probes["cancelled_call_reported_success"]++
 	}
 	lower, upper, ok := wantSets(env)
 	if !ok {
